@@ -10,6 +10,8 @@ RULE = ('(i) the message sequences of C08 (exhaustive to length 2/3 + random, 7 
         'the C09 oracle: required SASL => no CAP END / CONNECTED without success; STS over an insecure link => the first driver action is '
         'reconnect(host, policy port, verification forced) and nothing is stored; a policy is stored only on a verified link; '
         '(ii) ServersMixin._applyStsPolicy on the real networks store for policy strings x stored ages x disconnect histories x clocks; '
+        '(ii-b) histories of store-policy / record-disconnection / _getNextServer events on a real ServersMixin with several entries and repeated '
+        'hostnames, every step replayed on the model, every returned server checked against the store; '
         '(iii) SocketDriver.starttls verification choice for all 16 settings.  non-trivial = distinct step / store state')
 TRUSTED = c08.TRUSTED + ['the TLS handshake (utils.net.ssl_wrap_socket) is not modelled: only the `verify` argument it is called with',
                           'no plugin is loaded: "goes on to join" is observed as fsm = CONNECTED (Owner.do376 sends the JOINs when it is handed the 376). '
@@ -186,6 +188,112 @@ def run_apply(ctx, mods):
         drivers.time.time = saved[2]
 
 
+# ---- ServersMixin as a state machine: several entries, repeated hostnames, policies stored between pops ----
+MIX_HOSTS = ['irc.example.org', 'alt.example.net']
+MIX_POLS = ['port=6697,duration=300', 'duration=100,port=7000', 'port=6697,duration=0', 'port=1,duration=1000000', 'port=x,duration=3']
+MIX_CORPUS = [
+    # the seeded-change scenario: two entries for one host, the policy is stored while the second entry is already loaded
+    {'conf': [['irc.example.org', 6667], ['irc.example.org', 8000]],
+     'evs': [[2, 1000], [0, 'irc.example.org', 'port=6697,duration=300'], [1, 1010, 'irc.example.org'], [2, 1020], [2, 1030], [2, 1400]]},
+    {'conf': [['irc.example.org', 6667], ['alt.example.net', 6667], ['irc.example.org', 6668]],
+     'evs': [[0, 'irc.example.org', 'port=6697,duration=300'], [2, 5], [2, 6], [1, 7, 'irc.example.org'], [2, 8], [2, 400], [2, 401]]},
+    {'conf': [['irc.example.org', 6667]], 'evs': [[2, 1], [0, 'irc.example.org', 'duration=100,port=7000'], [2, 2], [1, 3, 'irc.example.org'], [2, 50], [2, 200]]},
+]
+
+
+def gen_mix(rng):
+    conf = [[rng.choice(MIX_HOSTS), rng.choice([6667, 6668, 8000])] for _ in range(rng.choice([1, 2, 2, 3, 4]))]
+    evs, now = [], 1000
+    for _ in range(rng.randint(3, 12)):
+        now += rng.choice([0, 1, 50, 120, 400])
+        r = rng.random()
+        if r < 0.25:
+            evs.append([0, rng.choice(MIX_HOSTS), rng.choice(MIX_POLS[:4] if rng.random() < 0.93 else MIX_POLS)])
+        elif r < 0.45:
+            evs.append([1, now, rng.choice(MIX_HOSTS)])
+        else:
+            evs.append([2, now])
+    return {'conf': conf, 'evs': evs}
+
+
+def run_mixin_history(ctx, mods, h, model=True):
+    """drive a real ServersMixin + the real networks store through the history; returns (steps for the model diff, failures)"""
+    irclib, conf, ircmsgs, ircutils, ircdb, drivers = mods
+    net = ircdb.networks.getNetwork('test')
+    saved = (dict(net.stsPolicies), dict(net.lastDisconnectTimes), drivers.time.time, ircdb.time.time)
+    wconf = [[hh, pp, 0, False] for hh, pp in h['conf']]
+
+    class Group:
+        _name = 'supybot.networks.test'
+
+        def servers(self):
+            return [drivers.Server(hh, pp, 0, False) for hh, pp in h['conf']]
+    mixin = drivers.ServersMixin.__new__(drivers.ServersMixin)
+    mixin.networkName, mixin.networkGroup, mixin.servers = 'test', Group(), []
+    steps, fails = [], []
+
+    def snap():
+        cur = getattr(mixin, 'currentServer', None)
+        return ([[[k, v] for k, v in net.stsPolicies.items()], [[k, v] for k, v in net.lastDisconnectTimes.items()]],
+                [[[x.hostname, x.port, x.attempt, bool(x.force_tls_verification)] for x in mixin.servers],
+                 wire.opt(None if cur is None else [cur.hostname, cur.port, cur.attempt, bool(cur.force_tls_verification)])])
+    try:
+        net.stsPolicies.clear(); net.lastDisconnectTimes.clear()
+        for i, e in enumerate(h['evs']):
+            bnet, bmix = snap()
+            res = None
+            if e[0] == 0:
+                net.addStsPolicy(e[1], e[2])
+            elif e[0] == 1:
+                ircdb.time.time = lambda t=e[1]: t
+                net.addDisconnection(e[2])
+            else:
+                drivers.time.time = lambda t=e[1]: t
+                try:
+                    r = mixin._getNextServer()
+                    res = ('ok', [r.hostname, r.port, r.attempt, bool(r.force_tls_verification)])
+                except Exception as ex:
+                    res = ('raise', type(ex).__name__)
+                # the property, directly: an unexpired stored policy for the host of the returned server => its port, verification forced
+                if res[0] == 'ok':
+                    pol = dict(map(tuple, bnet[0])).get(res[1][0])
+                    last = dict(map(tuple, bnet[1])).get(res[1][0])
+                    rp = ref_policy(pol, True) if pol is not None else None
+                    if rp is not None and (last is None or e[1] <= last + rp[1]) and (res[1][1] != rp[0] or not res[1][3]):
+                        fails.append({'step': i, 'kind': 'sts-connection-not-upgraded',
+                                      'detail': '_getNextServer returned %r at clock %r although the policy %r is stored for that host (last disconnection %r)'
+                                                % (res[1], e[1], pol, last)})
+            anet, amix = snap()
+            steps.append((wconf, bnet, bmix, e, anet, amix, res))
+    finally:
+        net.stsPolicies.clear(); net.stsPolicies.update(saved[0])
+        net.lastDisconnectTimes.clear(); net.lastDisconnectTimes.update(saved[1])
+        drivers.time.time, ircdb.time.time = saved[2], saved[3]
+    return steps, fails
+
+
+def run_mixin(ctx, mods):
+    hs = list(MIX_CORPUS) + [gen_mix(ctx.rng) for _ in range(ctx.n(600))]
+    allsteps = []
+    for h in hs:
+        steps, fails = run_mixin_history(ctx, mods, h)
+        for f in fails:
+            ctx.fail(dict({k: v for k, v in f.items() if k != 'detail'}, mix=h), f['detail'])
+        allsteps += [(h, st) for st in steps]
+    outs = ctx.model([[4, [w, bn, bm, e]] for h, (w, bn, bm, e, an, am, res) in allsteps])
+    for (h, (w, bn, bm, e, an, am, res)), mo in zip(allsteps, outs):
+        inp = {'mix': {'conf': h['conf']}, 'net': bn, 'mixin': bm, 'event': e}
+        ctx.case('servers-%s' % ['store', 'disconnect', 'next'][e[0]], inp)
+        if mo is None:
+            continue
+        sv = lambda v: [wire.s(v[0]), v[1], v[2], bool(v[3])]
+        mnet = [[[wire.s(x[0]), wire.s(x[1])] for x in mo[0][0]], [[wire.s(x[0]), x[1]] for x in mo[0][1]]]
+        mmix = [[sv(x) for x in mo[1][0]], wire.opt(wire.o(mo[1][1], sv))]
+        mres = wire.o(mo[2], lambda v: wire.r(v, sv))
+        if mnet != an or mmix != am or mres != res:
+            ctx.disagree(inp, [mnet, mmix, mres], [an, am, res], 'ServersMixin / store step')
+
+
 def run_starttls(ctx, mods):
     irclib, conf, ircmsgs, ircutils, ircdb, drivers = mods
     import supybot.drivers.Socket as Socket
@@ -280,12 +388,19 @@ def run(ctx):
             if f['kind'] in ('required-bypassed', 'sts-stored-insecure', 'sts-no-upgrade', 'sts-not-stored', 'sts-invalid-stored'):
                 ctx.fail(dict({k: v for k, v in f.items() if k != 'detail'}, cfg=cfgi, secure=secure, seq=seq), f['detail'])
     run_apply(ctx, mods)
+    run_mixin(ctx, mods)
     run_starttls(ctx, mods)
 
 
 def replay(ctx, inp):
     mods = c08._mods()
     sub = type(ctx)(ctx.pid, ctx.tier, ctx.seed, {'model_ok': False})
+    if 'mix' in inp:
+        steps, fails = run_mixin_history(sub, mods, inp['mix'], model=False)
+        for f in fails:
+            if f['kind'] == inp.get('kind'):
+                return f['detail']
+        return None
     if 'seq' in inp:
         fails = c08.run_sequence(sub, mods, inp['cfg'], inp['secure'], inp['seq'], model=False, oracle=Oracle())
         for f in fails:
